@@ -58,11 +58,24 @@ CLAIMED = {
         "proved in range before indexing and `desc` without a preceding key is rejected (no underflow), for every token vector.",
    note="Only the ORDER BY clause parser so far. Not covered: that buffered rows come out in Criteria order (TopN/BTreeMap out of reach), "
         "numeric/date key comparison."),
+
+ "C12": dict(engine="F", ref="5/C12",
+   technique="Kani harnesses on the glob and LIKE escape tables (alternation literal + arm table) extracted from glob.rs each run, exhaustive over printable ASCII",
+   text="For each of the 95 printable ASCII characters the image under capture-then-map of convert_glob_to_pattern / convert_like_to_pattern "
+        "is proved to be the wildcard expansion, or backslash+character for every regex metacharacter, or the character itself; no captured "
+        "token reaches the error arm. Exhaustive over the property's alphabet.",
+   note="Trusted: regex::Regex::replace_all semantics, anchoring and (?i), the conforms string arm and its regex cache."),
+ "C14": dict(engine="F", ref="5/C14",
+   technique="Kani harnesses on the suffix ladder of parse_filesize extracted rung by rung each run",
+   text="Every documented unit (k kib kb m mib mb g gib gb t tib tb b) is proved to have a rung that is reached first (no shadowing) and strips "
+        "exactly its own length; each rung's multiplier is proved equal to the documented one for all integers n < 2^16 (bounded; "
+        "f64 multiplication).",
+   note="Multiplier obligations are bounded (n < 65536). Trusted: lower-casing, slicing, str::parse. Not covered: fractional literals, format_filesize."),
 }
 PENDING = "no contract-based check built yet in this revision (planned: DESIGN.md section 5)"
 NOT_APPLICABLE = {
  "C09": PENDING,
- "C11": PENDING, "C12": PENDING, "C14": PENDING, "C16": PENDING,
+ "C11": PENDING, "C16": PENDING,
  "C08": "GROUP BY partitioning lives in iterator-adapter closures over HashMap<Vec<String>, Vec<HashMap<String,String>>>: Verus rejects the adapters, CBMC does not finish two string-keyed rows; no closed fragment carries the partition property (DESIGN.md section 6)",
  "C17": "fault isolation is about read_dir/open failures, closed pipes and the process exit status (OS behaviour); the only closed fragment (error_count -> status) is proved under C10 and does not decide C17",
  "C18": "termination and at-most-once traversal over arbitrary symlink graphs is a whole-history property of visit_dir plus the OS namespace; ok_to_visit_dir needs a DirEntry that cannot be constructed by a verifier",
